@@ -89,4 +89,16 @@ PROPS = {
   'assumptions': ['directories are readable (the harness writes them); archives have at least one entry'],
   'explanation': 'The verify model is compared with pmtiles.Verify on every valid archive and every corruption; the oracle knows by construction which files are consistent.',
  },
+ 'C11': {
+  'uses_generated': True,
+  'rule': 'request paths over the grammar {names, ".", "..", empty segments, %2e, %2f, %5c, double escapes, names with every punctuation class, non-ASCII and invalid UTF-8, '
+          'sibling directories sharing the served name as prefix} x {tile, metadata, TileJSON suffixes, malformed suffixes, overflowing numbers} compared with the three Go regexps; '
+          'keys with dot/empty segments compared with filepath.IsLocal/Join; hostile requests against a served directory with marker archives in the parent, in a prefix-sharing sibling '
+          'and in another directory, through Server.Get, ServeHTTP and raw bytes to a real listener mounted on a ServeMux. All cases non-trivial; distinct by case line',
+  'trusted_base': ['Go regexp, strconv, path/filepath (their lexical semantics is transcribed in Model/PathParse.v and Model/PathSafe.v and exercised against the real functions)',
+                   'net/http request parsing, ServeMux cleaning and percent-decoding (only observed)', 'symbolic links are out of scope (lexical confinement)'],
+  'assumptions': ['the served root is an absolute clean path'],
+  'explanation': 'C11_key_is_name and C11_served_confined hold for every byte string; the regexps are regenerated from server.go and must equal the strings the parsers were written from; '
+                 'the oracle looks for markers of outside files in every response.',
+ },
 }
